@@ -138,7 +138,8 @@ class PairNames:
         self.i = 0
 
     def field(self, rng):
-        seq = ["x", self.prefix + "x", self.prefix * 2 + "x", "y", self.prefix + "y", self.prefix * 2 + "y", "z"]
+        seq = ["x", self.prefix + "x", "y", self.prefix + "y", "z", self.prefix + "z", self.prefix * 2 + "z", "k",
+               self.prefix + "k"]
         n = seq[self.i] if self.i < len(seq) else "w%d" % self.i
         self.i += 1
         return n
@@ -292,10 +293,12 @@ def collect_cases(seed, n, cap):
     names = G.DEFAULT_NAMES
     k = 200000
     try:
-        for rep in range(2):
+        for rep in range(3):
             for pre in names.prefixes:
                 for tag, g, j, with_cap in gens[:5]:
                     G.DEFAULT_NAMES = PairNames(pre)
+                    # named shapes with at least three fields, so that a name and its prefixed forms share a variant
+                    G.OPTS_PATCH = {"kind": "enum" if (k + rep) % 3 else "struct", "min_fields": 3, "force_style": "named"}
                     c = g(seed * 7919 + 17 + rep, k, cap)
                     if re.search(r"\b(fn|r#|type|match|loop|struct)\b", "") is None:
                         pass
@@ -304,6 +307,7 @@ def collect_cases(seed, n, cap):
                     k += 1
     finally:
         G.DEFAULT_NAMES = names
+        G.OPTS_PATCH = {}
     return cases
 
 
